@@ -1608,8 +1608,10 @@ class RTCSctpTransport(AsyncIOEventEmitter):
 
         # retransmit
         retransmit_earliest = True
-        for chunk in self._sent_queue:
-            if chunk._retransmit:
+        # sending may suspend (e.g. behind a TURN relay) and the queue may
+        # change meanwhile: walk a copy and skip what got acknowledged
+        for chunk in list(self._sent_queue):
+            if chunk._retransmit and uint32_gt(chunk.tsn, self._last_sacked_tsn):
                 if self._fast_recovery_transmit:
                     self._fast_recovery_transmit = False
                 elif self._flight_size >= cwnd:
